@@ -6,6 +6,7 @@ import (
 	"go/constant"
 	"go/token"
 	"go/types"
+	"os"
 	"regexp"
 	"sort"
 	"strings"
@@ -887,23 +888,25 @@ func returnsError(info *types.Info, b *ast.BlockStmt) bool {
 }
 
 func init() {
-	register("DBGCANON", func(c *Ctx) {
-		r := loadRepo(c, packages.LoadSyntax, "", "./internal")
-		ip := r.Pkg("internal")
-		for _, name := range []string{"NewTemplateGenerator", "findPkgPath"} {
-			fd := FuncDecl(ip, name)
-			fc := newFuncCanon(ip.TypesInfo, fd)
-			ast.Inspect(fd.Body, func(n ast.Node) bool {
-				switch x := n.(type) {
-				case *ast.IfStmt:
-					fmt.Println(name, "IF", fc.E(x.Cond))
-				case *ast.AssignStmt:
-					if len(x.Rhs) == 1 {
-						fmt.Println(name, "ASSIGN", types.ExprString(x.Lhs[0]), "=", fc.E(x.Rhs[0]))
-					}
-				}
-				return true
-			})
+	// debugging aid: MVCHECK_DBG="<pkg rel>:<Recv.Func>" mvcheck DBGPATHS prints the decision table of a function
+	register("DBGPATHS", func(c *Ctx) {
+		spec := strings.SplitN(os.Getenv("MVCHECK_DBG"), ":", 2)
+		if len(spec) != 2 {
+			return
+		}
+		r := loadRepo(c, packages.LoadSyntax, "", "./"+spec[0])
+		p := r.Pkg(spec[0])
+		fd := FuncDecl(p, spec[1])
+		if fd == nil {
+			fmt.Println("not found")
+			return
+		}
+		paths, _ := enumerateFunc(p.TypesInfo, fd)
+		for _, q := range paths {
+			fmt.Println("PATH", q.String())
+			for _, st := range q.Steps {
+				fmt.Println("     ", st)
+			}
 		}
 	})
 }
